@@ -49,8 +49,8 @@ structure Obj (F : Type) where
   tr : Bool
   /-- id of its `_data` dict -/
   data : Nat
-  /-- the instance attribute `_orb_frame`; `__array_finalize__` does not set it, so arrays made by
-  numpy out of a `Cov` do not have it -/
+  /-- the instance attribute `_orb_frame`; set by `__new__`, carried over by `__array_finalize__`
+  since /repo c5f38c8 (before, arrays made by numpy out of a `Cov` did not have it: `none`) -/
   orbFrame : Option F
 
 /-- a `StateVector` as far as `Cov` is concerned: date, frame, cartesian coordinates, attached `Cov` object -/
@@ -112,7 +112,9 @@ def Heap.view (E : HEnv F D Mat Vec) (h : Heap F D Mat Vec) (i : Nat) : View F D
   { tag := d.tag, orbFrame := o.orbFrame, date := c.date, orbCur := c.frame, orb := c.x, mat := h.readMat E o }
 
 /-- does `obj.frame = t` run to completion?  `self._orb_frame` is evaluated (AttributeError when the
-attribute is absent) as soon as the current tag or the target is a frame and they differ -/
+attribute is absent) as soon as the current tag or the target is a frame and they differ.  Since
+/repo c5f38c8 every object the operations below can make has the attribute; the case is kept so
+that the model says what the setter does if the attribute goes missing again -/
 def hopOk (v : View F D Mat Vec) (t : Tag F) : Bool :=
   decide (t = v.tag) || v.orbFrame.isSome || (isLocTag v.tag && isLocTag t)
 
@@ -152,12 +154,12 @@ def Heap.fromCov (E : HEnv F D Mat Vec) (h : Heap F D Mat Vec) (s i : Nat) : Hea
 
 /-- what `__array_finalize__` does for an array numpy made from template `obj_i`:
 `self._data = obj._data.copy()` — a NEW dict with the same two values (the private state copy is
-shared, it is never modified by `Cov`), and no `_orb_frame`.  `buf`/`tr` say which memory the new
-array looks at. -/
+shared, it is never modified by `Cov`) — and `self._orb_frame = obj._orb_frame` (since /repo
+c5f38c8).  `buf`/`tr` say which memory the new array looks at. -/
 def Heap.finalize (h : Heap F D Mat Vec) (i : Nat) (buf : Nat) (tr : Bool) : Heap F D Mat Vec :=
   { h with
     data := upd h.data h.ndata (h.data (h.obj i).data), ndata := h.ndata + 1,
-    obj := upd h.obj h.nobj { buf := buf, tr := tr, data := h.ndata, orbFrame := none }, nobj := h.nobj + 1 }
+    obj := upd h.obj h.nobj { buf := buf, tr := tr, data := h.ndata, orbFrame := (h.obj i).orbFrame }, nobj := h.nobj + 1 }
 
 /-- result of a numpy operation with `obj_i` as template and a fresh output buffer holding `val`
 (`k * c`, `-c`, `c + d`, `c @ d`, `np.array(c, subok=True)`, `copy.copy(c)`, `copy.deepcopy(c)`, `c.astype(float)`) -/
